@@ -36,7 +36,9 @@ func (core *JApiCore) buildRule(d *directive.Directive) *jerr.JApiError {
 	}
 
 	if !d.BodyCoords.IsSet() {
-		return nil
+		// The scanner finds the missing body of the ENUM directive unless the file
+		// ends right after the directive, without a line break.
+		return d.KeywordError(jerr.BodyIsEmpty)
 	}
 
 	r := enum.New(name, d.BodyCoords.Read())
